@@ -75,20 +75,20 @@ pub fn c18_domain_ground() {
 }
 
 //@ id=C18 tier=quick to=1800 cfg=std exh=1 stub=1 unwind=17 stubs="TwoFloat::exp, TwoFloat::ln, TwoFloat::sqrt -> havoc (their own totality: C14/C15/C13); all DW operator impls -> havoc" desc="the hyperbolic functions contain no panic site of their own: for ALL valid x they return provided exp, ln and sqrt return"
-#[cfg_attr(kani, kani::proof)]
-#[cfg_attr(kani, kani::unwind(17))]
-#[cfg_attr(kani, kani::stub(twofloat::TwoFloat::exp, crate::uf::havoc_unary))]
-#[cfg_attr(kani, kani::stub(twofloat::TwoFloat::ln, crate::uf::havoc_unary))]
-#[cfg_attr(kani, kani::stub(twofloat::TwoFloat::sqrt, crate::uf::havoc_unary))]
-#[cfg_attr(kani, kani::stub(<&twofloat::TwoFloat as core::ops::Mul<&twofloat::TwoFloat>>::mul, crate::uf::havoc_tt))]
-#[cfg_attr(kani, kani::stub(<&twofloat::TwoFloat as core::ops::Add<&twofloat::TwoFloat>>::add, crate::uf::havoc_tt))]
-#[cfg_attr(kani, kani::stub(<&twofloat::TwoFloat as core::ops::Sub<&twofloat::TwoFloat>>::sub, crate::uf::havoc_tt))]
-#[cfg_attr(kani, kani::stub(<&twofloat::TwoFloat as core::ops::Div<&twofloat::TwoFloat>>::div, crate::uf::havoc_tt))]
-#[cfg_attr(kani, kani::stub(<&twofloat::TwoFloat as core::ops::Add<&f64>>::add, crate::uf::havoc_tf64))]
-#[cfg_attr(kani, kani::stub(<&twofloat::TwoFloat as core::ops::Sub<&f64>>::sub, crate::uf::havoc_tf64))]
-#[cfg_attr(kani, kani::stub(<&twofloat::TwoFloat as core::ops::Div<&f64>>::div, crate::uf::havoc_tf64))]
-#[cfg_attr(kani, kani::stub(<&f64 as core::ops::Add<&twofloat::TwoFloat>>::add, crate::uf::havoc_f64t))]
-#[cfg_attr(kani, kani::stub(<&f64 as core::ops::Sub<&twofloat::TwoFloat>>::sub, crate::uf::havoc_f64t))]
+#[cfg_attr(all(kani, feature = "stubs"), kani::proof)]
+#[cfg_attr(all(kani, feature = "stubs"), kani::unwind(17))]
+#[cfg_attr(all(kani, feature = "stubs"), kani::stub(twofloat::TwoFloat::exp, crate::uf::havoc_unary))]
+#[cfg_attr(all(kani, feature = "stubs"), kani::stub(twofloat::TwoFloat::ln, crate::uf::havoc_unary))]
+#[cfg_attr(all(kani, feature = "stubs"), kani::stub(twofloat::TwoFloat::sqrt, crate::uf::havoc_unary))]
+#[cfg_attr(all(kani, feature = "stubs"), kani::stub(<&twofloat::TwoFloat as core::ops::Mul<&twofloat::TwoFloat>>::mul, crate::uf::havoc_tt))]
+#[cfg_attr(all(kani, feature = "stubs"), kani::stub(<&twofloat::TwoFloat as core::ops::Add<&twofloat::TwoFloat>>::add, crate::uf::havoc_tt))]
+#[cfg_attr(all(kani, feature = "stubs"), kani::stub(<&twofloat::TwoFloat as core::ops::Sub<&twofloat::TwoFloat>>::sub, crate::uf::havoc_tt))]
+#[cfg_attr(all(kani, feature = "stubs"), kani::stub(<&twofloat::TwoFloat as core::ops::Div<&twofloat::TwoFloat>>::div, crate::uf::havoc_tt))]
+#[cfg_attr(all(kani, feature = "stubs"), kani::stub(<&twofloat::TwoFloat as core::ops::Add<&f64>>::add, crate::uf::havoc_tf64))]
+#[cfg_attr(all(kani, feature = "stubs"), kani::stub(<&twofloat::TwoFloat as core::ops::Sub<&f64>>::sub, crate::uf::havoc_tf64))]
+#[cfg_attr(all(kani, feature = "stubs"), kani::stub(<&twofloat::TwoFloat as core::ops::Div<&f64>>::div, crate::uf::havoc_tf64))]
+#[cfg_attr(all(kani, feature = "stubs"), kani::stub(<&f64 as core::ops::Add<&twofloat::TwoFloat>>::add, crate::uf::havoc_f64t))]
+#[cfg_attr(all(kani, feature = "stubs"), kani::stub(<&f64 as core::ops::Sub<&twofloat::TwoFloat>>::sub, crate::uf::havoc_f64t))]
 pub fn c18_no_own_panic() {
     let x = any_valid();
     let _ = x.cosh();
